@@ -468,8 +468,44 @@ def run(ctx, report: Report) -> None:
                          f'{fname}: `{rv}` is not an AND-fold (initialised True, only ever set to False): one failing item no '
                          f'longer makes the whole check fail')
 
-    # ---- R7 --------------------------------------------------------------------------------------------
     r7 = report.rule('C01-R7', 'a comma resets every piece of per-alternative parser state', floor=2)
+    comma_reset_rule(ctx, r7)
+
+    # ---- R8 --------------------------------------------------------------------------------------------
+    r8 = report.rule('C01-R8', 'class splitting and emptiness use the CSS whitespace set', floor=3)
+    for name, ref in (('RE_NOT_WS', '[^ \\t\\n\\r\\f]+'), ('RE_NOT_EMPTY', '[^ \\t\\n\\r\\f]')):
+        r = inv.find(f'css_match.{name}')
+        d = 'missing'
+        if r is not None:
+            s = rx.System()
+            A = s.add('a', r.pattern, r.flags)
+            B = s.add('b', ref, 0)
+            s.freeze()
+            d = rx.equivalent(A, B)
+        r8.instance({'regex': name, 'reference': ref, 'difference': d}, key=name)
+        r8.obligation(d is None)
+        if d is not None:
+            r8.violation(f'css_match.{name} whitespace', r.where if r else 'soupsieve/css_match.py',
+                         f'{name} is {"missing" if r is None else "not the complement of CSS whitespace"} ({d}): class '
+                         f'lists / emptiness are decided with a different whitespace set than CSS (space, tab, LF, CR, FF)')
+    _, gc = src.func('css_match._DocumentNav.get_classes')
+    ok = any(isinstance(c, ast.Call) and unparse(c.func) == 'RE_NOT_WS.findall' for c in ast.walk(gc))
+    bad = [c for c in ast.walk(gc) if isinstance(c, ast.Call) and isinstance(c.func, ast.Attribute)
+           and c.func.attr in ('split', 'strip') and not c.args]
+    r8.instance({'get_classes': 'splits a string value with RE_NOT_WS.findall', 'ok': ok and not bad}, key='get_classes')
+    r8.obligation(ok and not bad)
+    if not ok or bad:
+        r8.violation('css_match._DocumentNav.get_classes split', mmod.where(gc),
+                     'get_classes does not split a string-valued class attribute with the CSS-whitespace regex (str.split() '
+                     'also splits on NBSP, U+2003, VT ...): ".a" and [class~=a] disagree')
+
+
+def comma_reset_rule(ctx, r7):
+    """On every path taken for a comma the per-alternative parser state is reset (shared with C05)."""
+    src, inv = ctx.src, ctx.consts
+    pmod = src.mod('css_parser')
+    _, ps = src.func('css_parser.CSSParser.parse_selectors')
+    # ---- R7 --------------------------------------------------------------------------------------------
     comma_name = 'COMMA_COMBINATOR'
     default_rel = None
     for st in walk_no_nested(ps):
@@ -538,30 +574,3 @@ def run(ctx, report: Report) -> None:
                          f'{fname}: on some path taken for a comma the per-alternative state is not reset ({m_} missing): the '
                          f'next alternative of the list inherits combinators / relation chains of the previous one')
 
-    # ---- R8 --------------------------------------------------------------------------------------------
-    r8 = report.rule('C01-R8', 'class splitting and emptiness use the CSS whitespace set', floor=3)
-    for name, ref in (('RE_NOT_WS', '[^ \\t\\n\\r\\f]+'), ('RE_NOT_EMPTY', '[^ \\t\\n\\r\\f]')):
-        r = inv.find(f'css_match.{name}')
-        d = 'missing'
-        if r is not None:
-            s = rx.System()
-            A = s.add('a', r.pattern, r.flags)
-            B = s.add('b', ref, 0)
-            s.freeze()
-            d = rx.equivalent(A, B)
-        r8.instance({'regex': name, 'reference': ref, 'difference': d}, key=name)
-        r8.obligation(d is None)
-        if d is not None:
-            r8.violation(f'css_match.{name} whitespace', r.where if r else 'soupsieve/css_match.py',
-                         f'{name} is {"missing" if r is None else "not the complement of CSS whitespace"} ({d}): class '
-                         f'lists / emptiness are decided with a different whitespace set than CSS (space, tab, LF, CR, FF)')
-    _, gc = src.func('css_match._DocumentNav.get_classes')
-    ok = any(isinstance(c, ast.Call) and unparse(c.func) == 'RE_NOT_WS.findall' for c in ast.walk(gc))
-    bad = [c for c in ast.walk(gc) if isinstance(c, ast.Call) and isinstance(c.func, ast.Attribute)
-           and c.func.attr in ('split', 'strip') and not c.args]
-    r8.instance({'get_classes': 'splits a string value with RE_NOT_WS.findall', 'ok': ok and not bad}, key='get_classes')
-    r8.obligation(ok and not bad)
-    if not ok or bad:
-        r8.violation('css_match._DocumentNav.get_classes split', mmod.where(gc),
-                     'get_classes does not split a string-valued class attribute with the CSS-whitespace regex (str.split() '
-                     'also splits on NBSP, U+2003, VT ...): ".a" and [class~=a] disagree')
